@@ -873,6 +873,8 @@ pub struct HistoryOutcome {
     pub sched: SchedOutcome,
     /// store events of the concurrent phase
     pub events: Vec<Event>,
+    /// wall-clock window of the concurrent phase (for attributing secondary panics)
+    pub window: (std::time::Instant, std::time::Instant),
 }
 
 /// Parse `.../_versions/<name>.manifest` -> version (V1 `N.manifest`, V2 zero padded u64::MAX-N)
@@ -1025,6 +1027,7 @@ pub async fn run_history(spec: &HistorySpec, watchdog: Duration) -> Result<Histo
         actors.push(a);
     }
     let log_start = world.log_len();
+    let t_start = std::time::Instant::now();
     let sched = Sched::new();
     world.set_sched(Some(sched.clone()));
     for i in 0..n {
@@ -1064,6 +1067,7 @@ pub async fn run_history(spec: &HistorySpec, watchdog: Duration) -> Result<Histo
         results,
         sched: out,
         events,
+        window: (t_start, std::time::Instant::now()),
     })
 }
 
@@ -1730,6 +1734,14 @@ pub async fn check_index_coverage(
 
 pub static LAST_PANIC_LOCATION: std::sync::Mutex<Option<String>> = std::sync::Mutex::new(None);
 
+/// (when, where) of every panic of the process; a task that dies with `RecvError` is only the
+/// consequence of an earlier panic on Lance's CPU pool, which is found here by time window
+pub static PANIC_LOG: std::sync::Mutex<Vec<(std::time::Instant, String)>> = std::sync::Mutex::new(Vec::new());
+
+pub fn panics_between(a: std::time::Instant, b: std::time::Instant) -> Vec<String> {
+    PANIC_LOG.lock().unwrap().iter().filter(|(t, _)| *t >= a && *t <= b).map(|x| x.1.clone()).collect()
+}
+
 thread_local! {
     pub static THREAD_PANIC_LOCATION: std::cell::RefCell<Option<String>> = const { std::cell::RefCell::new(None) };
 }
@@ -2068,6 +2080,8 @@ pub fn reclassify_key_index_merge(out: &HistoryOutcome, findings: &mut [Finding]
     for f in findings.iter_mut() {
         let content = f.signature.starts_with("stale-or-wrong-value:")
             || f.signature.starts_with("row-missing:")
+            // an upsert that does not match the key inserts a second row with it
+            || (f.signature.starts_with("duplicate-id:") && f.what.contains(" after merge_upsert"))
             || f.signature.starts_with("aftermath-update-differs-from-model:");
         let by_merge = f.what.contains(" after merge_u") || f.what.contains(" after merge_col");
         if content && by_merge {
